@@ -1,7 +1,7 @@
 //! C26 — parallel byte-range scans read every record exactly once.
 //!
-//! Two kinds of generated cases share this sub-command (weights 12 : 1, i.e. ≈ 8 300 unit cases and
-//! ≈ 700 SQL cases in the quick tier) plus a deterministic exhaustive sub-run (`Property::extra`).
+//! Three kinds of generated cases share this sub-command (weights 24 : 2 : 1, i.e. ≈ 8 000 unit cases,
+//! ≈ 670 SQL cases and ≈ 330 direct-scan cases in the quick tier) plus a deterministic exhaustive sub-run (`Property::extra`).
 //!
 //! **(a) Unit** — `AlignedBoundaryStream::new(store, path, raw_start, raw_end, file_size, terminator)`
 //! (datafusion/datasource/src/boundary_stream.rs; `END_SCAN_LOOKAHEAD` = 16 KiB is read from the crate)
@@ -35,6 +35,13 @@
 //! Guards: no quoted fields with embedded newlines (documented unsupported for range scans);
 //! compressed files are not generated (not splittable); for CSV the string column never holds `''`
 //! (CSV identifies it with NULL — C25's business).
+//!
+//! **(c) direct scans** — the same rendered files scanned by a `DataSourceExec` built by hand
+//! (`FileScanConfigBuilder` + `CsvSource` / `JsonSource`) whose file groups hold *generated* byte ranges
+//! (0–4 cuts per file placed relative to record starts, ranges dealt to 1–4 groups in generated order, whole
+//! files with and without an explicit range): rows = the rows written, and file order inside one range.
+//! This reaches the header handling of `CsvOpener` (`start != 0`) and the decoders at arbitrary boundaries,
+//! which the evenly sized ranges of the repartitioner never produce.
 //!
 //! Non-trivial: (unit) some boundary strictly inside a line and another exactly at a line start;
 //! (SQL) the planned ranges contain a boundary strictly inside a line.
@@ -76,6 +83,8 @@ const LA: u64 = END_SCAN_LOOKAHEAD;
 pub enum Case {
     Unit(UnitCase),
     Sql(SqlCase),
+    /// the real CSV / NDJSON openers over generated (not evenly sized) byte ranges and groupings
+    Scan(ScanCase),
 }
 
 // ---------------------------------------------------------------------------------------------
@@ -733,6 +742,182 @@ fn sql_strategy(tier: Tier) -> BoxedStrategy<SqlCase> {
         .boxed()
 }
 
+
+// ---------------------------------------------------------------------------------------------
+// (c) direct scans: DataSourceExec over generated byte ranges
+
+#[derive(Clone, Debug, Serialize, Deserialize)]
+pub struct ScanCase {
+    /// files, format, header, store and batch size are taken from here (query / target_partitions unused)
+    pub base: SqlCase,
+    /// cut points per file (cyclic), relative to record starts
+    pub cuts: Vec<Vec<Cut>>,
+    pub groups: u8,
+    /// group of the k-th range (cyclic)
+    pub assign: Vec<u8>,
+}
+
+async fn run_scan_case(c: &ScanCase, dir: &std::path::Path) -> Result<SqlOutcome, CaseResult> {
+    use datafusion::datasource::listing::PartitionedFile;
+    use datafusion::datasource::object_store::ObjectStoreUrl;
+    use datafusion::datasource::physical_plan::{CsvSource, FileGroup, FileScanConfigBuilder, JsonSource};
+    let b = &c.base;
+    let ext = if b.json { "json" } else { "csv" };
+    let rendered: Vec<(Vec<u8>, Vec<u64>)> = b.files.iter().enumerate().map(|(i, f)| b.render(i, f)).collect();
+    let o = SessOpts { target_partitions: 1, batch_size: b.batch_size.max(1) as usize, sets: vec![("datafusion.execution.enable_file_stream_work_stealing".into(), b.work_stealing.to_string())], list_files_cache: None };
+    let ctx = session(&o).map_err(CaseResult::inconclusive)?;
+    let mem = Arc::new(InMemory::new());
+    let mut paths: Vec<String> = vec![];
+    let store_url = if let Some(plan) = &b.chunks {
+        for (i, (bytes, _)) in rendered.iter().enumerate() {
+            let p = format!("t/part-{i}.{ext}");
+            mem.put(&OPath::from(p.as_str()), PutPayload::from(bytes.clone())).await.map_err(|e| CaseResult::inconclusive(format!("harness put: {e}")))?;
+            paths.push(p);
+        }
+        ctx.register_object_store(&url::Url::parse("chunk://data").expect("url"), Arc::new(ChunkStore::new(mem.clone(), plan.clone())));
+        ObjectStoreUrl::parse("chunk://data").map_err(|e| CaseResult::inconclusive(e.to_string()))?
+    } else {
+        std::fs::create_dir_all(dir.join("t")).map_err(|e| CaseResult::inconclusive(format!("harness mkdir: {e}")))?;
+        for (i, (bytes, _)) in rendered.iter().enumerate() {
+            let fp = dir.join("t").join(format!("part-{i}.{ext}"));
+            std::fs::write(&fp, bytes).map_err(|e| CaseResult::inconclusive(format!("harness write: {e}")))?;
+            paths.push(fp.display().to_string().trim_start_matches('/').to_string());
+        }
+        ObjectStoreUrl::local_filesystem()
+    };
+    // ranges
+    let ngroups = c.groups.clamp(1, 6) as usize;
+    let mut groups: Vec<Vec<PartitionedFile>> = vec![vec![]; ngroups];
+    let mut planned: Vec<Vec<(usize, i64, i64)>> = vec![vec![]; ngroups];
+    let mut k = 0usize;
+    let mut inside = false;
+    let mut nranges = 0usize;
+    for (i, (bytes, starts)) in rendered.iter().enumerate() {
+        let size = bytes.len() as u64;
+        if size == 0 {
+            continue; // listing never hands out empty files
+        }
+        let mut table: Vec<u64> = starts.clone();
+        table.push(size);
+        let cuts: &[Cut] = if c.cuts.is_empty() { &[] } else { &c.cuts[i % c.cuts.len()] };
+        let mut cs: Vec<u64> = cuts.iter().take(4).map(|ct| (table[pick_index(ct.line, table.len())] as i64 + ct.delta as i64).clamp(0, size as i64) as u64).collect();
+        cs.sort();
+        cs.dedup();
+        let mut prev = 0u64;
+        let mut ranges = vec![];
+        for x in cs {
+            if x > prev {
+                ranges.push((prev, x));
+                prev = x;
+            }
+        }
+        if prev < size {
+            ranges.push((prev, size));
+        }
+        for (s, e) in ranges {
+            if s > 0 && starts.binary_search(&s).is_err() && bytes[(s - 1) as usize] != b'\n' {
+                inside = true;
+            }
+            let g = if c.assign.is_empty() { k % ngroups } else { c.assign[k % c.assign.len()] as usize % ngroups };
+            k += 1;
+            nranges += 1;
+            let whole = s == 0 && e == size;
+            let pf = PartitionedFile::new(paths[i].clone(), size);
+            groups[g].push(if whole && k % 2 == 0 { pf } else { pf.with_range(s as i64, e as i64) });
+            planned[g].push((i, s as i64, e as i64));
+        }
+    }
+    let schema = schema_of(&[("f".to_string(), Ty::Int64), ("n".to_string(), Ty::Int64), ("v".to_string(), Ty::Int64), ("s".to_string(), Ty::Utf8)]);
+    let source: Arc<dyn datafusion::datasource::physical_plan::FileSource> = if b.json {
+        Arc::new(JsonSource::new(schema.clone()))
+    } else {
+        let opts = datafusion::common::config::CsvOptions::default().with_has_header(b.header);
+        Arc::new(CsvSource::new(schema.clone()).with_csv_options(opts))
+    };
+    let file_groups: Vec<FileGroup> = groups.into_iter().filter(|g| !g.is_empty()).map(FileGroup::new).collect();
+    let planned: Vec<Vec<(usize, i64, i64)>> = planned.into_iter().filter(|g| !g.is_empty()).collect();
+    let mut labels = vec![format!("scan:groups={}", file_groups.len().min(9)), format!("scan:ranges={}", nranges.min(9))];
+    if inside {
+        labels.push("scan:boundary-inside-line".into());
+    }
+    if file_groups.is_empty() {
+        return Ok(SqlOutcome { violation: None, labels, nontrivial: false });
+    }
+    let cfg = FileScanConfigBuilder::new(store_url, source).with_file_groups(file_groups).build();
+    let plan: Arc<dyn ExecutionPlan> = DataSourceExec::from_data_source(cfg);
+    let parts = match collect_partitioned(plan, ctx.task_ctx()).await {
+        Ok(p) => p,
+        Err(e) => {
+            return Err(match classify(&e) {
+                ErrClass::Rejected => CaseResult::discard(format!("scan rejected: {e}")),
+                ErrClass::Resources => CaseResult::inconclusive(e.to_string()),
+                ErrClass::Other => CaseResult::violation(format!("scan over byte ranges {planned:?} failed: {e}")),
+            });
+        }
+    };
+    let expected = b.expected();
+    let mut all = vec![];
+    let head = format!("{} file(s), groups of (file, start, end): {}", b.files.len(), truncate(&format!("{planned:?}"), 600));
+    for (pi, p) in parts.iter().enumerate() {
+        let rows = batches_to_rows(p).map_err(|m| CaseResult::violation(format!("result conversion: {m}")))?;
+        // order inside one range
+        let mut last: BTreeMap<(i64, i64), i64> = BTreeMap::new();
+        for r in &rows {
+            if let (V::Int(f), V::Int(n)) = (&r[0], &r[1]) {
+                let st = rendered.get(*f as usize).and_then(|(_, starts)| starts.get(*n as usize)).copied().unwrap_or(0) as i64;
+                // with work stealing a range may be read by another partition than the one it was planned for
+                let rg = planned.iter().flatten().find(|(fi, s, e)| *fi as i64 == *f && *s <= st && st < *e).map(|(_, s, _)| *s).unwrap_or(-1);
+                if let Some(prev) = last.get(&(*f, rg)) {
+                    if *prev >= *n {
+                        return Ok(SqlOutcome { violation: Some(format!("partition {pi}: rows of file {f} range starting at {rg} out of file order (line {n} after {prev}); {head}")), labels, nontrivial: inside });
+                    }
+                }
+                last.insert((*f, rg), *n);
+            }
+        }
+        all.extend(rows);
+    }
+    if let Some(d) = multiset_diff(&expected, &all) {
+        return Ok(SqlOutcome { violation: Some(format!("scan over generated byte ranges differs from the rows the files were written from: {d}; {head}")), labels, nontrivial: inside });
+    }
+    Ok(SqlOutcome { violation: None, labels, nontrivial: inside })
+}
+
+fn scan_result(c: &ScanCase) -> CaseResult {
+    let b = &c.base;
+    if b.files.is_empty() || b.files.len() > 8 || b.files.iter().any(|f| f.rows.len() > 400) {
+        return CaseResult::discard("outside domain");
+    }
+    let tmp = match tempfile::tempdir() {
+        Ok(t) => t,
+        Err(e) => return CaseResult::inconclusive(format!("tempdir: {e}")),
+    };
+    let out = block_on_timeout(if c.groups > 2 { 2 } else { 1 }, 60, run_scan_case(c, tmp.path()));
+    drop(tmp);
+    let o = match out {
+        Err(()) => return CaseResult::inconclusive("timeout after 60 s"),
+        Ok(Err(r)) => return r.label("scan"),
+        Ok(Ok(o)) => o,
+    };
+    let mut r = match o.violation {
+        Some(m) => CaseResult::violation(m),
+        None => CaseResult::pass(),
+    };
+    r = r.nontrivial(o.nontrivial).label("scan").label(if b.json { "scan:ndjson" } else { "scan:csv" }).labels(o.labels);
+    r = r.label(if b.chunks.is_some() { "scan:chunk-store" } else { "scan:local-fs" });
+    if !b.json && b.header {
+        r = r.label("scan:csv-header");
+    }
+    r
+}
+
+fn scan_strategy(tier: Tier) -> BoxedStrategy<ScanCase> {
+    let cut = (any::<u16>(), prop_oneof![4 => -3i32..4, 3 => Just(0i32), 2 => 4i32..30]).prop_map(|(line, delta)| Cut { line, delta });
+    (sql_strategy(tier), prop::collection::vec(prop::collection::vec(cut, 0..4), 1..4), 1u8..5, prop::collection::vec(any::<u8>(), 0..6))
+        .prop_map(|(base, cuts, groups, assign)| ScanCase { base, cuts, groups, assign })
+        .boxed()
+}
+
 // ---------------------------------------------------------------------------------------------
 // exhaustive sub-run
 
@@ -933,8 +1118,9 @@ impl Property for C26 {
     }
     fn strategy(&self, tier: Tier) -> BoxedStrategy<Case> {
         prop_oneof![
-            12 => unit_strategy(tier).prop_map(Case::Unit),
-            1 => sql_strategy(tier).prop_map(Case::Sql),
+            24 => unit_strategy(tier).prop_map(Case::Unit),
+            2 => sql_strategy(tier).prop_map(Case::Sql),
+            1 => scan_strategy(tier).prop_map(Case::Scan),
         ]
         .boxed()
     }
@@ -958,6 +1144,7 @@ impl Property for C26 {
         match case {
             Case::Unit(u) => unit_result(u),
             Case::Sql(s) => sql_result(s),
+            Case::Scan(s) => scan_result(s),
         }
     }
     fn extra(&self, tier: Tier, seed: u64) -> Result<Value, (String, Case)> {
